@@ -187,6 +187,8 @@ def spec (caseLine implLine : String) : String :=
   | some c =>
     if implLine.startsWith "PANIC" then "FAIL panic-datagram the parser goroutine panicked (gostatsd would exit)" else
     if implLine.startsWith "HANG" then "FAIL hang-datagram" else
+    if (implLine.splitOn " RCVALIAS ").length > 1 then
+      "FAIL aliasing-receiver a datagram held between the real receiver and the parser was overwritten by later reads (its buffer was released or reused too early)" else
     match implLine.splitOn " ### " with
     | [left, right] =>
       let (aloneStr, alias) := match right.splitOn " ALIASING " with
